@@ -1,7 +1,7 @@
 (* C13, encode side and the finding: layout of a re-encoded struct (known fields, then the retained chunks byte for
    byte, then the stop byte), every retained chunk is a contiguous slice of the message, the refutation witness of
    finding F-13a (a type that is both keep and is_arg swallows the rest of the buffer). *)
-From PVGen Require Import Gen GenKeep GenSpec EvoSpec KeepSpec Proofs.GenBase Proofs.EncP Proofs.EvoBase Proofs.KeepBase Proofs.KeepP.
+From PVGen Require Import Gen GenKeep GenSpec EvoSpec KeepSpec Proofs.GenBase Proofs.EncP Proofs.EvoBase Proofs.KeepBase Proofs.KeepP Proofs.KeepArgP.
 From PV Require Import Proofs.TablesP Proofs.PrimP Proofs.HeaderP Proofs.RoundtripP Proofs.LenP.
 From Coq Require Import ZifyN ZifyNat ZifyBool.
 Open Scope Z_scope.
@@ -72,7 +72,7 @@ Definition tvarg : tval := VStruct [(1, VStruct [(1, VI32 1)]); (2, VI32 2)].
 
 Theorem keep_is_arg_refuted :
   exists S p k T tv ss,
-    wf_schema S = true /\ no_keep_arg S = false /\ wt tv = true /\ ttype_of tv = ttype_of_ty S T /\
+    wf_schema S = true /\ arg_free S T tv = false /\ wt tv = true /\ ttype_of tv = ttype_of_ty S T /\
     evo_dom S T tv = true /\ no_retyped_variant S T tv = true /\
     write_val p k tv w0 = Ok (ss, w0) /\
     viewk S p k w0 T tv = Ok (GStruct [(1, GStruct [(1, GI32 1)] []); (2, GI32 2)] []) /\
@@ -98,7 +98,7 @@ Definition tvk : tval :=
             (2, VI64 5) ].
 
 Example keep_decode_nonvacuous :
-  wf_schema Rk = true /\ no_keep_arg Rk = true /\ wt tvk = true /\
+  wf_schema Rk = true /\ arg_free Rk (TyRef 0) tvk = true /\ wt tvk = true /\
   evo_dom Rk (TyRef 0) tvk = true /\ no_retyped_variant Rk (TyRef 0) tvk = true /\
   viewk Rk PBinary BContig w0 (TyRef 0) tvk =
     Ok (GStruct [(1, GI32 7);
@@ -112,7 +112,7 @@ Proof.
   split; [vm_compute; reflexivity|]. split; [vm_compute; reflexivity|]. split; [vm_compute; reflexivity|].
   split; [vm_compute; reflexivity|]. split; [vm_compute; reflexivity|]. split; [vm_compute; reflexivity|].
   intros p Hp.
-  destruct (keep_decode Rk p BContig (TyRef 0) tvk eq_refl Hp eq_refl eq_refl eq_refl eq_refl w0 eq_refl) as (ss & Hw & Hr).
+  destruct (keep_decode Rk p BContig (TyRef 0) tvk Hp eq_refl eq_refl eq_refl eq_refl eq_refl w0 eq_refl) as (ss & Hw & Hr).
   exists ss. split; [exact Hw|]. apply Hr; [vm_compute; lia|apply idle_r0].
 Qed.
 
@@ -141,4 +141,50 @@ Proof.
   subst c2.
   destruct (write_fields_slice p k c Hb Hc fs sf Hwt Hf id x Hin) as (a & b & E).
   exists a, (b ++ flat s4 ++ flat s5). cbn [app]. rewrite !flat_app, E, <- !app_assoc. reflexivity.
+Qed.
+
+(* ---------- a schema WITH a service: the argument struct is keep + is_arg, the other types are in the domain ----------
+   struct Req { 1: required i64 id }                       -- method argument: keep, is_arg
+   struct Top { 1: required i32 a; 3: optional Sub s }     -- keeps, does not reach Req
+   struct Sub { 1: optional bool b }
+   struct ArgsRecv { 1: optional Req req }                 -- synthesised, never keeps: reaches Req *)
+Definition Rsvc : schema :=
+  [ DStruct [mkField 1 Required TyI64 None] true true;
+    DStruct [mkField 1 Required TyI32 None; mkField 3 Optional (TyRef 2) None] true false;
+    DStruct [mkField 1 Optional TyBool None] true false;
+    DStruct [mkField 1 Optional (TyRef 0) None] false false ].
+Definition tvsvc : tval :=
+  VStruct [ (9, VBinary [x61; x62]); (1, VI32 7); (3, VStruct [(1, VBool true); (8, VDouble 0)]); (2, VI64 5) ].
+
+Example keep_decode_service_nonvacuous :
+  wf_schema Rsvc = true /\ no_keep_arg Rsvc = false /\
+  arg_free Rsvc (TyRef 1) tvsvc = true /\ wt tvsvc = true /\
+  evo_dom Rsvc (TyRef 1) tvsvc = true /\ no_retyped_variant Rsvc (TyRef 1) tvsvc = true /\
+  (forall v, arg_free Rsvc (TyRef 1) v = true) /\
+  forall p, p <> PCompact -> exists ss g, write_val p BContig tvsvc w0 = Ok (ss, w0) /\
+    viewk Rsvc p BContig w0 (TyRef 1) tvsvc = Ok g /\ chunks_of g <> [] /\
+    gen_decode_keep Rsvc p 40 (TyRef 1) (mkS (flat ss ++ [xff]) r0) = Ok (g, mkS [xff] r0).
+Proof.
+  split; [vm_compute; reflexivity|]. split; [vm_compute; reflexivity|]. split; [vm_compute; reflexivity|].
+  split; [vm_compute; reflexivity|]. split; [vm_compute; reflexivity|]. split; [vm_compute; reflexivity|]. split.
+  { (* type level: nothing reachable from Top is keep + is_arg *)
+    intros v. apply KeepArgP.reach_arg_free.
+    apply (KeepArgP.nkar_invariant Rsvc (fun t => t = TyRef 1 \/ t = TyI32 \/ t = TyRef 2 \/ t = TyBool)); [auto| |].
+    - intros t u Ht Hs.
+      destruct Ht as [-> | [-> | [-> | ->]]]; inversion Hs; subst;
+        repeat match goal with
+        | H : resolve Rsvc _ = _ |- _ => vm_compute in H; first [discriminate H | injection H as <-]
+        | H : lookup Rsvc _ = _ |- _ => vm_compute in H; first [discriminate H | injection H as <- <- <-]
+        | H : In _ _ |- _ => cbn [In] in H; decompose [or] H; clear H; subst; try contradiction
+        end; cbn [f_ty]; auto.
+    - intros t n dfs ia Ht Er El.
+      destruct Ht as [-> | [-> | [-> | ->]]]; vm_compute in Er; try discriminate Er; injection Er as <-;
+        vm_compute in El; try discriminate El; injection El as _ <-; reflexivity. }
+  intros p Hp.
+  destruct (keep_decode Rsvc p BContig (TyRef 1) tvsvc Hp eq_refl eq_refl eq_refl eq_refl eq_refl w0 eq_refl) as (ss & Hw & Hr).
+  assert (Hv : exists g, viewk Rsvc p BContig w0 (TyRef 1) tvsvc = Ok g /\ chunks_of g <> []).
+  { destruct p; try congruence; eexists; (split; [vm_compute; reflexivity|cbn; discriminate]). }
+  destruct Hv as (g & Hv & Hc).
+  exists ss, g. split; [exact Hw|]. split; [exact Hv|]. split; [exact Hc|].
+  rewrite (Hr 40%nat [xff] r0 ltac:(vm_compute; lia) idle_r0), Hv. reflexivity.
 Qed.
